@@ -239,7 +239,7 @@ def nontrivial(case, obs):
 
 
 def finding(case, what):
-  """F27: the protocol has no session identity — a client whose generator is replaced between two of
+  """C15-F27: the protocol has no session identity — a client whose generator is replaced between two of
   its requests continues on the new generator (needs a client plus another init_generator/client)."""
   if 'threads' not in case:
     return None
@@ -247,7 +247,7 @@ def finding(case, what):
   inits = sum(1 for p in ths if p['kind'] in ('client', 'init'))
   if any(p['kind'] == 'client' for p in ths) and inits >= 2 and (
       'another generator' in what or 'not a prefix' in what):
-    return 'F27'
+    return 'C15-F27'
   return None
 
 
